@@ -96,7 +96,7 @@ def h10b_sim(c, n=2):
     h12_sim(Tap(c), n=n)
 
 
-def _sim_history(c, K, recount=True, coherence=False):
+def _sim_history(c, K, recount=True, coherence=False, handicaps=(0, -1.5)):
     """K-step histories through the public API in simulation: placements (single, extra order in a trade, inside `with trade:`),
     package processing, fills, cancels, runner removal"""
     multi = c.choose("multi_order_trades", [False, True])
@@ -109,7 +109,7 @@ def _sim_history(c, K, recount=True, coherence=False):
     else:
         fl, (client,), (strategy,) = cm.new_sim(strategy_kwargs=dict(multi_order_trades=multi, max_live_trade_count=max_l, max_trade_count=3))
     mw = fl._market_middleware[0]
-    hcap = c.choose("handicap", [0, -1.5])  # (a handicap / line-market runner is a different runner context)
+    hcap = c.choose("handicap", list(handicaps))  # (a handicap / line-market runner is a different runner context)
     bk = cm.book([cm.runner(1, handicap=hcap, atb=[{"price": 1.5, "size": 100.0}], atl=[{"price": 4.0, "size": 100.0}]), cm.runner(2)], version=7)
     market = cm.add_market(fl, bk)
     mw(market)
@@ -128,7 +128,7 @@ def _sim_history(c, K, recount=True, coherence=False):
             t_before = _dt.datetime.utcnow()
             n_tr_log = len(rec.trades)
             act = c.choose("action%d" % k, ["place-new-trade", "place-same-trade", "place-in-with-trade", "process-packages", "fill-all", "fill-first", "fill-last", "cancel-all",
-                                            "suspend-lapse", "remove-runner"] + (["replace-all"] if coherence else []))
+                                            "suspend-lapse", "remove-runner"] + (["replace-all", "place-same-order-again"] if coherence else []))
             c.tag("a%d" % k, act)
             with c.guard("step%d:%s" % (k, act)):
                 if act in ("place-new-trade", "place-same-trade", "place-in-with-trade"):
@@ -157,6 +157,17 @@ def _sim_history(c, K, recount=True, coherence=False):
                         c.ob("step%d.trades<=max" % k, len(rc.trades) <= 3)
                     else:
                         c.cover("refused")
+                elif act == "place-same-order-again":
+                    # an order object can be placed once: a second attempt (whatever became of the first) is rejected and changes nothing
+                    if placed:
+                        from flumine.exceptions import OrderError
+                        sig0 = lc.views_sig(market.blotter)
+                        try:
+                            market.place_order(placed[-1], client=client)
+                            c.ob("step%d.second-placement-of-the-same-order-rejected" % k, False, status=placed[-1].status.name, bet_id=placed[-1].bet_id)
+                        except OrderError:
+                            c.ob("step%d.rejected-placement-changes-no-view" % k, lc.views_sig(market.blotter) == sig0)
+                            c.cover("second-placement-rejected")
                 elif act == "process-packages":
                     while fl.handler_queue:
                         client.execution.handler(fl.handler_queue.pop(0))
